@@ -24,8 +24,23 @@ reg(Prop(
          'per-grammar budget, plus strings sampled from the grammar and their mutations (insert/delete/replace/truncate/skipper-fill). '
          'evaluations counts (grammar,input) pairs; success/failure, the value (S-expression) and the fatal flag of phrase_parse_string / '
          'grammar_parse_string are compared with an independent PEG interpreter; every 4th pair is also run through phrase_parse on a recording '
-         'basic_stream (rewind protocol, final offset). distinct = hash of (grammar text, input).',
+         'basic_stream (rewind protocol, final offset). distinct = hash of (grammar text, input). '
+         'Second harness c02_static (naturally typed grammars): 92 fixtures written with the natural operators and unerased result types '
+         '(harness/gen/c02_fixtures.py emits, from one description each, the real C++ expression and the AST of the same grammar): sequences of 2-5 '
+         'parts with unit parsers in every position, left/right nested sequences, sequences of mixed result types, alternatives of 2-4 branches with '
+         'equal / different / convertible / repeated result types and variants on either side, alternatives inside sequences and vice versa, '
+         'repetition/optional/separator/list of tuples, units and variants, as_struct (aggregates of 2-5 fields, a class with a constructor, nested), '
+         'construct, convert/convert_if on tuples, ignore, convert_const, named, recursive, lexeme, fatal, fail, make_base, the char-only aliases, '
+         'and 5 grammar classes with typed (mutually) recursive rules incl. examples/parse/grammar.cpp and the JSON grammar of test/parse/json.cpp; '
+         'each in 1-2 of 10 worlds (char/wchar_t x skippers epsilon, space, char_set, *literal, *char_set>>epsilon). A case is one (fixture, world, '
+         'input): all token strings over the fixture alphabet (plus skipper characters) up to the length that fits 2500 (quick) / 40000 (thorough), '
+         'random longer strings, hand-written positive samples with every skipper filling, seeded random derivations of the grammar, and the 1-edit '
+         'neighbours of both. The REAL result of parse_string / phrase_parse_string / grammar_parse_string is printed by a generic printer (unit, '
+         'characters, numbers, strings, tuple, variant with index, optional, vector, recursive, map, user structs); the reference interpreter applies the '
+         'PEG semantics plus the documented result-type rules (sequence_result.hpp, alternative_result.hpp, repetition_result.hpp, parse.doxygen) and '
+         'prints the same canonical form; success/failure, canonical value, fatal flag and the spelled-out result type are compared.',
     assumptions=COMMON_ASSUMPTIONS + [
         'generated grammars are well-formed by construction (no left recursion, no repetition of a nullable parser)',
-        'adopted implementation choices that the documentation leaves open: int_/uint/float_ accept only magnitudes that fit the type; a repetition keeps an element only if the skipper after it succeeded; error texts are not compared (C12 owns locations)'],
+        'adopted implementation choices that the documentation leaves open: int_/uint/float_ accept only magnitudes that fit the type; a repetition keeps an element only if the skipper after it succeeded; error texts are not compared (C12 owns locations)',
+        'c02_static, result-type rules that the documentation leaves open are adopted from the implementation and not judged: an alternative removes duplicate result types keeping the first occurrence (char|int|char is variant<char,int>; the overview only states that variant<digit,...,digit> is simplified to digit); separator accepts the empty sequence, i.e. it is -(inner >> *(sep >> inner)), and always yields std::vector (also of characters); repetition_plus of a parser whose result is a tuple or unit does not compile and is therefore not exercised; float values are compared bit-exactly against strtod of the matched text'],
 ))
